@@ -47,6 +47,8 @@ func main() {
 	switch a["mode"] {
 	case "search":
 		search(a)
+	case "conc":
+		conc(a)
 	case "script":
 		runScript(a["file"])
 	case "keys":
@@ -92,7 +94,15 @@ func corr(a map[string]string) {
 	r := hx.NewRng(hx.SeedFromEnv())
 	n := hx.ArgInt(a, "n", 40)
 	w := NewWorld()
-	do := func(line string) string { return out.Do(line, func() string { return w.Exec(line) }) }
+	genBadOps := 0
+	inMalformed := false
+	do := func(line string) string {
+		r := out.Do(line, func() string { return w.Exec(line) })
+		if r == "bad-op" && !inMalformed {
+			genBadOps++ // a well-formed generated line refused by the executor: a broken tie, not agreement
+		}
+		return r
+	}
 
 	out.Do("const emptycodehash", func() string { return w.Exec("const emptycodehash") })
 
@@ -267,7 +277,11 @@ func corr(a map[string]string) {
 				}
 			}
 			if !crashed && g.r.Chance(1, 2) {
-				step(g.Query())
+				q := g.Query()
+				step(q)
+				if !crashed && g.r.Chance(1, 4) {
+					step(q) // history: the same read again must answer the same
+				}
 			}
 			if !crashed && g.r.Chance(1, 5) {
 				step("internals")
@@ -281,6 +295,7 @@ func corr(a map[string]string) {
 	}
 
 	// 3. malformed stream: both sides must answer bad-op
+	inMalformed = true
 	u := NewUniv(r.Fork())
 	for _, l := range u.Header(true) {
 		do(l)
@@ -307,6 +322,10 @@ func corr(a map[string]string) {
 	st["revert_depth_hist"] = depthHist
 	st["script_len_hist"] = lens
 	st["root_clashes"] = w.RootClash
+	st["generated_bad_ops"] = genBadOps
+	st["retained_slices_checked"] = w.Retained
+	st["alias_violations"] = w.Alias
+	st["reference_clashes"] = w.RefClash
 	st["token_contract"] = hx.Hex(u.tok[:])
 	b, _ := json.Marshal(st)
 	fmt.Println("STATS " + string(b))
